@@ -142,11 +142,14 @@ theorem soft_delete_marks_everything (w : World) (u : Uid) :
 
 /-! ### what the hub stops -/
 
-/-- stopTopicsForUser: the account's own `me` and `fnd`, every p2p topic it takes part in, every topic it owns -/
+/-- stopTopicsForUser: the account's own `me` and `fnd`, every p2p topic it takes part in, the system topic if it is subscribed to
+it, every topic it owns -/
 theorem stops_own_and_personal (u : Uid) (t : Topic) :
-    stopsFor u t = true ↔ ((t.isMe ∨ t.isFnd ∨ isP2PKey t.name = true) ∧ (t.pud? u).isSome) ∨ (u ≠ "" ∧ t.owner = u) := by
+    stopsFor u t = true ↔
+      ((t.isMe ∨ t.isFnd ∨ isP2PKey t.name = true ∨ t.name = "sys") ∧ (t.pud? u).isSome) ∨ (u ≠ "" ∧ t.owner = u) := by
   unfold stopsFor Topic.isGrpCat
-  cases t.isMe <;> cases t.isFnd <;> cases isP2PKey t.name <;> cases (t.pud? u).isSome <;> simp
+  by_cases hs : t.name = "sys" <;>
+    cases t.isMe <;> cases t.isFnd <;> cases isP2PKey t.name <;> cases (t.pud? u).isSome <;> simp [hs]
 
 /-- a group topic in which the account is a mere subscriber is not stopped: it is told that the subscriber is gone instead -/
 theorem member_topic_not_stopped (u : Uid) (t : Topic) (hg : t.isGrpCat = true) (ho : t.owner ≠ u) : stopsFor u t = false := by
